@@ -3,7 +3,9 @@ Spec: Leaps.tla over the frozen table LeapTab.tla (steps by one exactly at liste
 AddReal laws) and Bisect.tla (the table bisection refines 'last entry strictly below the key', terminates).
 A: every Bisect state (table, key) replayed on leaps_before_{si32,ui32,si64,ui64}.
 B: TAI/GPS conversions at every entry +-2 s, yearly to 4095 and seeded; ddiff -f %rS on ordered pairs around every
-entry and far apart (both orders); dadd +N rs walks across every inserted second -- validated by LeapsTrace.tla."""
+entry and far apart (both orders); dadd +N rs walks across every inserted second -- validated by LeapsTrace.tla.
+The table itself: LeapCompile.tla models lib/ltrcc.c (six passes, statics) against the columns a list must compile to;
+every list TLC emits, the shipped list and the arrays linked into libdut.a go through LeapCompileTrace.tla."""
 import re
 from vlib import core
 from vlib.zonedrv import LineDriver
@@ -177,6 +179,7 @@ def main(tier):
                 key += " backwards" if (bad["dd"], bad["ds"]) < (0, 0) else " forwards"
             rep.disagree(key, {"rejected_event": bad})
         rep.sample({"events": ev[:2] + ev[-2:]})
+        compiler_section(rep, b, quick)
         core.log("leap events: %d validated, %d rejected" % (nval, len(rejected)))
         rep.cov["rule"] = ("A: one case = (table, key) of the Bisect model x 4 integer widths; B: one event = TAI/GPS offset at an instant "
                            "(every entry +-2 s, yearly 1972..4094, 2^31 and 2^32 boundaries, seeded), a real-second difference of an ordered "
@@ -186,6 +189,106 @@ def main(tier):
         return rep.finish()
     finally:
         b.close()
+
+
+# ---- the leap-list compiler (lib/ltrcc.c): LeapCompile.tla, lists emitted by TLC replayed into the real ltrcc
+def _parse_def(txt):
+    cols = {}
+    for name, body in re.findall(r"const u?int32_t (leaps_\w+)\[\] = \{(.*?)\};", txt, re.S):
+        body = re.sub(r"/\*.*?\*/", "", body)
+        cols[name] = [x.strip().rstrip("U") for x in body.split(",") if x.strip()]
+    return cols
+
+
+def _num(tok):
+    return {"INT32_MIN": -2 ** 31, "INT32_MAX": 2 ** 31 - 1, "UINT32_MAX": 2 ** 32 - 1}.get(tok, None) if not tok[:1].isdigit() and tok[:1] != "-" else int(tok, 0)
+
+
+def _columns(raw, dec):
+    """raw .def tokens -> the columns of LeapCompileTrace; packed words are decoded by the library's own types (dec)"""
+    def word(name):
+        return [_num(t) for t in raw.get(name, [])]
+    out = {"corr": [["v", x] for x in word("leaps_corr")],
+           "d": [["hi", 0] if x == 2 ** 32 - 1 else ["v", x] for x in word("leaps_d")],
+           "s": [["lo", 0] if x == -2 ** 31 else ["hi", 0] if x == 2 ** 31 - 1 else ["v", x] for x in word("leaps_s")]}
+    for name, cmd in (("ymd", "Y"), ("ymcw", "C")):
+        col = []
+        for x in word("leaps_" + name):
+            col.append(["z", 0] if x == 0 else ["hi", 0] if x == 2 ** 32 - 1 else ["v"] + dec("%s %x" % (cmd, x)))
+        out[name] = col
+    out["hms"] = [["hi", 0] if x == 2 ** 32 - 1 else ["t"] + dec("H %x" % x) for x in word("leaps_hms")]
+    return out
+
+
+def compiler_section(rep, b, quick):
+    import os, tempfile, shutil
+    r = core.tlc_must_pass("LeapCompile", "LeapCompile.cfg" if quick else "LeapCompileThorough.cfg", workers=8, keep_prints=False, timeout=3000)
+    rep.add_tlc("LeapCompile (the six passes of ltrcc with their statics emit the columns (S) demands; WellFormed; StaticsReset)", r)
+    o = core.tlc("LeapCompile", "LeapCompileNeg.cfg", workers=4, keep_prints=False)
+    if "Refines" not in o.violated:
+        raise core.MachineryError("negative control failed: the label of a deleted second is not refuted")
+    rep.notes["negative_control_compiler"] = "LeapCompileNeg.cfg (rows that lower the difference) violates Refines as required: ltrcc labels a deleted second 23:59:59"
+    r = core.tlc_must_pass("LeapCompile", "LeapCompileEmit.cfg" if quick else "LeapCompileEmitThorough.cfg", workers=4, timeout=3000)
+    lists = [c["list"] for c in (core.parse_print(x) for x in r.prints) if c and "list" in c]
+    if len(lists) < 100:
+        raise core.MachineryError("LeapCompile emitted only %d lists" % len(lists))
+    ltrcc = os.path.join(b.lib, "ltrcc")
+    if not os.path.exists(ltrcc):
+        raise core.MachineryError("the build has no lib/ltrcc")
+    drv = LineDriver(b.driver("drv_leaptab", link_lib=True), timeout=5.0)
+
+    def dec(cmd):
+        got = drv.cmd(cmd)
+        return got if isinstance(got, list) else [-9]
+    d = tempfile.mkdtemp(prefix="verif-ltr.", dir="/var/tmp")
+    ev = []
+    try:
+        def compile_list(lines, tag):
+            path = os.path.join(d, "l.list")
+            with open(path, "w") as f:
+                for x in lines:
+                    f.write("# a comment line\t12 34\n" if x["k"] == "c" else "\n" if x["k"] == "b" else "%d\t%d\t# row\n" % (x["nd"] * 86400, x["off"]))
+            p = core.run([ltrcc, "-C", path], timeout=20)
+            return {"e": "Table", "src": tag, "rc": p.returncode, "lines": lines, "cols": _columns(_parse_def(p.stdout), dec)}
+        for i, ls in enumerate(lists):
+            ev.append([compile_list(ls, "ltrcc -C on TLC list %d" % i)])
+        # the shipped list, and the arrays linked into the library
+        shipped = []
+        for l in open(os.path.join(b.lib, "leap-seconds.list")):
+            if l.startswith("#"):
+                shipped.append({"k": "c", "nd": 0, "off": 0})
+            elif not l.strip():
+                shipped.append({"k": "b", "nd": 0, "off": 0})
+            else:
+                a, off = l.split()[:2]
+                if int(a) % 86400:
+                    rep.disagree("leap-seconds.list row not at midnight", {"row": l.strip()})
+                shipped.append({"k": "d", "nd": int(a) // 86400, "off": int(off)})
+        p = core.run([ltrcc, "-C", os.path.join(b.lib, "leap-seconds.list")], timeout=20)
+        comp = _columns(_parse_def(p.stdout), dec)
+        ev.append([{"e": "Table", "src": "ltrcc -C lib/leap-seconds.list", "rc": p.returncode, "lines": shipped, "cols": comp}])
+        t = drv.cmd("T")
+        linked = {"corr": [], "ymd": [], "ymcw": [], "d": [], "s": [], "hms": []}
+        if isinstance(t, dict):
+            raw = {"leaps_corr": [str(x["corr"]) for x in t["rows"]], "leaps_ymd": ["0x" + x["ymdu"] for x in t["rows"]],
+                   "leaps_ymcw": ["0x" + x["ymcwu"] for x in t["rows"]], "leaps_d": ["0x" + x["d"] for x in t["rows"]],
+                   "leaps_s": [x["s"] for x in t["rows"]], "leaps_hms": ["0x%x" % (2 ** 32 - 1) if x["hms"][0] < 0 else "0x%x" % (x["hms"][0] << 16 | x["hms"][1] << 8 | x["hms"][2]) for x in t["rows"]]}
+            linked = _columns(raw, dec)
+        ev.append([{"e": "Table", "src": "arrays linked into libdut.a", "rc": 0, "lines": shipped, "cols": linked}])
+        ev.append([{"e": "Same", "src": "linked arrays = compiler output", "linked": linked, "compiled": comp}])
+    finally:
+        shutil.rmtree(d, ignore_errors=True)
+        drv.close()
+    nval, rejected, st = core.validate_batches("LeapCompileTrace", "LeapCompileTrace.cfg", ev, max_reject=20)
+    rep.cov["states"] += st
+    rep.cov["transitions"] += st
+    rep.count(traces=nval, evaluations=len(ev), distinct=len(ev))
+    for ei, pos, ex in rejected:
+        bad = ex[0]
+        rep.disagree("leap-list compiler: %s" % ("compiled columns" if bad["e"] == "Table" and bad["src"].startswith("ltrcc") else bad["src"]),
+                     {"rejected_event": {k: bad[k] for k in bad if k != "lines"}, "data_rows": [x for x in bad.get("lines", []) if x["k"] == "d"][:6]})
+    rep.notes["compiler_lists"] = len(lists)
+    core.log("leap-list compiler: %d compilations validated, %d rejected" % (nval, len(rejected)))
 
 
 def zc_clamp(x):
